@@ -23,6 +23,9 @@ SendClause(e) ==
   ELSE IF e.exc = "Hang" THEN <<"C02.Bounded", "the call never returned">>
   ELSE IF e.exc # "none" THEN <<"C01.Reject", "valid payload raised " \o e.exc>>
   ELSE IF \E i \in 1..Len(air) : air[i].data # data THEN <<"C02.OnlyOwnPayload", "foreign payload on air during the call">>
+  ELSE IF \E i \in 1..Len(air) : air[i].want_ack # (C.aa0 /\ ~(e.ask_no_ack /\ C.dynack))
+       THEN <<"C02.AckRequest", IF e.ask_no_ack THEN "the packet on air requests an acknowledgement although the caller asked for none"
+                                ELSE "the packet on air requests no acknowledgement although the caller did not ask for that">>
   ELSE IF e.lossfree /\ ~(\E i \in 1..Len(air) : air[i].new)
        THEN <<"C01.Delivered", "compatible configuration, listening peer, loss-free medium: the payload never reached the peer">>
   ELSE IF e.api = "write" THEN                                   \* non-blocking: only content / pipe / order matter
